@@ -1359,6 +1359,17 @@ class Table:
                 if table.num_rows > 0:
                     yield table.to_pylist()
 
+            if rows_read == 0 and compute_expr is not None:
+                # A data file without rows yields no batch, so the loop above
+                # evaluated nothing. scan() still applies the filter to the
+                # file's (empty) table, and pyarrow refuses an expression it
+                # cannot bind to the file's schema (unknown column, a literal of
+                # the wrong type). Do the same here, so that such a filter raises
+                # in every scan API - not in scan() alone.
+                empty = pf.schema_arrow.empty_table().filter(compute_expr)
+                if columns is not None:
+                    empty.select(columns)
+
             # A damaged footer can make iter_batches() stop early without an
             # error (pq.read_table rejects the same bytes). Fewer rows than the
             # file itself declares is a read failure, not a shorter file -
